@@ -158,6 +158,30 @@ def rule_parsefresh(P) -> RuleResult:
                      f'two parses', f'{w.func.module.path}:{getattr(w.node, "lineno", 0)}')
     if n < 15:
         raise AnalysisError(f'only {n} functions found in the parser front end')
+    # the generated parser keeps its tokenizer, stacks and memo tables on the instance: parse() works on a parser object of its own
+    from ..symex import Sym as _S, T as _T, Engine as _E, show as _sh
+    pm = P.module('beanquery.parser')
+    pf = pm.toplevel_funcs.get('parse')
+    if not pf:
+        raise AnalysisError('anchor vanished: beanquery.parser.parse')
+    TEXT = _S('TEXT')
+    receivers = []
+
+    def on_call(fn, fv, rc, args, kw, ex, node):
+        if str(fn).split('.')[-1] == 'parse' and rc is not None and args[:1] == (TEXT,):
+            receivers.append(rc)
+            return _S('TREE')
+        return NotImplemented
+    for p in _E(P, on_call=on_call, max_depth=1).paths(pf[-1], {pf[-1].params[0]: TEXT}):
+        pass
+    if not receivers:
+        raise AnalysisError('beanquery.parser.parse: the call of the generated parser was not found on terms')
+    for rc in receivers:
+        fresh = isinstance(rc, _T) and rc.op in ('call', 'new') and str(rc.args[0]).split('.')[-1].endswith('Parser')
+        if not fresh:
+            res.fail(pf[-1].fq, 'parsefresh:parser', f'parse() runs the statement through `{_sh(rc)[:60]}`, a parser object that outlives the call: '
+                     f'the generated parser keeps its tokenizer, stacks and memo tables on the instance, so two statements parsed at the '
+                     f'same time (two threads, any connections) corrupt each other', loc(pf[-1]))
     if not res.findings:
-        res.ok({'modules': list(mods), 'functions_examined': n, 'memoised': 0, 'writes_outliving_a_parse': 0})
+        res.ok({'modules': list(mods), 'functions_examined': n, 'memoised': 0, 'writes_outliving_a_parse': 0, 'parser_object': 'one per call'})
     return res
